@@ -851,14 +851,17 @@ def probe_compose(ctx, rng):
     import torch, numqi
     Mm = M()
     ops, expect, tols = [], [], []
-    for rep in range(12 if ctx.quick() else 60):
-        din, dout = int(rng.integers(2, 4)), int(rng.integers(2, 4))
-        cr = int(rng.integers(1, din * dout + 1))
-        if cr * dout < din:
-            cr = -(-din // dout)
+    # systematic: every Stiefel method x (d_in, d_out) incl. d_in != d_out x every admissible choi_rank 1..d_in*d_out; batch / dtype / phase alternate
+    chan_cfgs = []
+    dimsets = [(2, 2), (2, 3), (3, 2)] + ([] if ctx.quick() else [(3, 3), (2, 4), (4, 2)])
+    for meth in ['qr', 'polar', 'so-exp', 'so-cayley', 'euler', 'choleskyL']:
+        for din, dout in dimsets:
+            for cr in range(1, din * dout + 1):
+                if cr * dout >= din:
+                    chan_cfgs.append((meth, din, dout, cr))
+    for rep, (meth, din, dout, cr) in enumerate(chan_cfgs):
         bs = [None, 2][rep % 2]
         dt = [torch.complex128, torch.complex64][(rep // 2) % 2]
-        meth = ['qr', 'polar', 'so-exp', 'so-cayley', 'euler', 'choleskyL'][rep % 6]
         tol = PROBE64 if dt == torch.complex128 else PROBE32
         for kind in ('kraus', 'choi'):
             torch.manual_seed(int(rng.integers(1 << 30)))
@@ -897,6 +900,7 @@ def probe_compose(ctx, rng):
                         ctx.fail('channel:kraus-complete', f'{desc}: |sum K^H K - 1| = {e:.3e}', rp)
                     else:
                         ctx.probe_ok(('kraus', desc, s))
+                    ops.append(f'C01 kraus {din} {dout} {cr} {cbits(Xn[s])}'); expect.append(Ks.reshape(-1)); tols.append(TOL64 if dt == torch.complex128 else TOL32)
                 else:
                     C = o[s]
                     if C.shape != (dout, din, dout, din):
@@ -1064,6 +1068,61 @@ def abk_probe(ctx, rng):
             ctx.probe_ok()
 
 
+def probe_dtype_readonly(ctx, rng):
+    """integer-dtype and read-only parameter vectors: wherever the clean tree accepts them the result must be the map of the same values in
+    float64 (no silent truncation / no write into the caller's array); a rejection (exception) of an integer dtype is counted, not failed"""
+    import torch
+    specs = all_specs(ctx, rng)
+    if ctx.quick():
+        specs = [specs[i] for i in sorted(rng.choice(len(specs), size=min(len(specs), 150), replace=False))]
+    for spec in specs:
+        n = spec.nparam()
+        for attempt in range(30):
+            th = rng.integers(-3, 4, size=n).astype(np.float64)
+            if spec.accept(th, False, True) and (n == 0 or np.any(th != 0)):
+                break
+        else:
+            continue
+        shp = (2,) if rng.random() < 0.5 and not isinstance(spec, StEuler) else ()
+        th = np.broadcast_to(th, shp + (n,)).copy()
+        ref = guarded(lambda: to_np(spec.call(th.copy())))
+        if isinstance(ref, str):
+            continue
+        variants = {
+            'np-int64': lambda: th.astype(np.int64), 'np-int32': lambda: th.astype(np.int32),
+            'torch-int64': lambda: torch.tensor(th.astype(np.int64)), 'torch-int32': lambda: torch.tensor(th.astype(np.int32)),
+        }
+        for vname, mk in variants.items():
+            x = mk(); x0 = to_np(x).copy()
+            y = guarded(lambda: to_np(spec.call(x)))
+            rp = replay_of(spec, vname, False, shp, th)
+            if not same_bits(x, x0):
+                ctx.fail(f'{spec.name}:theta-modified', f'{spec.key()} modifies an integer theta in place ({vname})', rp); continue
+            if isinstance(y, str):
+                ctx.count('int-dtype-rejected-' + vname); ctx.probe_ok(); continue
+            ctx.count('int-dtype-accepted-' + vname)
+            yc = np.asarray(y).astype(np.complex128); rc = np.asarray(ref).astype(np.complex128)
+            if isinstance(spec, StQR):
+                rows = th.reshape(-1, n)
+                yc = np.stack([spec.canon(rows[k], v) for k, v in enumerate(yc.reshape((-1,) + spec.out_shape()))]).reshape(rc.shape)
+                rc = np.stack([spec.canon(rows[k], v) for k, v in enumerate(rc.reshape((-1,) + spec.out_shape()))]).reshape(rc.shape)
+            if yc.shape != rc.shape or not np.all(np.isfinite(yc)) or rel_err(yc, rc) > TOL32:
+                ctx.fail(f'{spec.name}:integer-dtype', f'{spec.key()}: integer theta ({vname}) is accepted but the result differs from the float64 call '
+                                                       f'(rel. diff {rel_err(yc, rc) if yc.shape == rc.shape else "shape"})', rp)
+            else:
+                ctx.probe_ok()
+        # read-only float64 array: the call must succeed and give the same bits (a write into the caller's memory would raise here)
+        xr = th.copy(); xr.setflags(write=False)
+        y = guarded(lambda: to_np(spec.call(xr)))
+        rp = replay_of(spec, 'np-readonly', False, shp, th)
+        if isinstance(y, str):
+            ctx.fail(f'{spec.name}:readonly-input', f'{spec.key()} raised {y} on a read-only float64 array (it writes into its argument?)', rp)
+        elif not same_bits(y, ref):
+            ctx.fail(f'{spec.name}:readonly-input', f'{spec.key()}: result on a read-only array differs from the writable one', rp)
+        else:
+            ctx.probe_ok()
+
+
 def probe_weighted(ctx, rng):
     """class-level option DiscreteProbability(weight=…): the output lies on the weighted simplex (sum_i w_i p_i = 1, p >= 0) for float and integer
     weights given as numpy arrays or torch tensors; forward() is tied to the model's weightedProb"""
@@ -1198,6 +1257,7 @@ def probe(ctx):
     probe_constraints(ctx, rng)
     probe_modules(ctx, rng)
     probe_compose(ctx, rng)
+    probe_dtype_readonly(ctx, rng)
     probe_weighted(ctx, rng)
     abk_probe(ctx, rng)
     ctx.extra['statements_not_proved'] = []
